@@ -1104,6 +1104,17 @@ pub fn body(input: ParseString) -> ParseResult<Body> {
     match section(new_input.clone()) {
       Ok((input, sect)) => {
         //println!("Parsed section: {:#?}", sect);
+        // A section that consumed nothing (it stopped at a stray mika section close) would be parsed forever.
+        if input.cursor == new_input.cursor {
+          return Err(nom::Err::Error(ParseError {
+            cause_range: SourceRange::default(),
+            remaining_input: input,
+            error_detail: ParseErrorDetail {
+              message: "Unexpected end of a Mika section",
+              annotation_rngs: Vec::new(),
+            },
+          }));
+        }
         sections.push(sect);
         new_input = input;
       }
